@@ -259,6 +259,46 @@ pub fn run(ctx: &'static Ctx) -> (&'static str, Value, Vec<&'static str>) {
         })
         .reduce(Stats::new, Stats::merge);
     let stats = stats.merge(lstats);
+    // format variants: the size and version fields of the VOL / ELV / RAD blocks take the values
+    // that the ICD's successive builds documented for them (VOL LRTUP 40/44/52 with versions 1.0,
+    // 2.0, 3.0, ...; RAD LRTUP 20/28; ELV LRTUP 12), in every combination and in both pointer
+    // orders. A decoder that switches layout on such fields reads them jointly; the bytes on the wire
+    // keep the current block sizes, so every field must still equal the bytes at its offset.
+    let mut sfmt = Stats::new();
+    for vol_lrtup in [40u16, 44, 52, 0] {
+        for (maj, min) in [(1u8, 0u8), (2, 0), (3, 0), (1, 1), (0, 0)] {
+            for rad_lrtup in [20u16, 28, 0] {
+                for elv_lrtup in [12u16, 0] {
+                    for order in [[0usize, 1, 2, 3], [2, 1, 0, 3], [3, 2, 1, 0]] {
+                        let (h, mut blocks) = simple_radial(2, 77, 19000, 12345, &[3], 5, Some(212));
+                        blocks[0].bytes[4..6].copy_from_slice(&vol_lrtup.to_be_bytes());
+                        blocks[0].bytes[6] = maj;
+                        blocks[0].bytes[7] = min;
+                        blocks[1].bytes[4..6].copy_from_slice(&elv_lrtup.to_be_bytes());
+                        blocks[2].bytes[4..6].copy_from_slice(&rad_lrtup.to_be_bytes());
+                        let (body, _) = t31_body(&h, &blocks, &Layout { ptrs: order.to_vec(), ..Layout::default() });
+                        let wit = || json!({"op": "format_variant", "vol_lrtup": vol_lrtup, "version": [maj, min], "rad_lrtup": rad_lrtup, "elv_lrtup": elv_lrtup, "pointer_order": order});
+                        sfmt.eval();
+                        let b2 = body.clone();
+                        match guarded(move || drd::decode_digital_radar_data(&mut std::io::Cursor::new(b2))) {
+                            Caught::Ret(Ok(m)) => {
+                                for (k, blk) in blocks.iter().enumerate() {
+                                    for (name, got, exp) in block_mismatches(&m, k, &blk.bytes) {
+                                        ctx.fail(&format!("format_variant:field:{name}"), || format!("VOL lrtup {vol_lrtup} v{maj}.{min}, RAD lrtup {rad_lrtup}, ELV lrtup {elv_lrtup}, pointer order {order:?}: decoded {got:#x}, bytes hold {exp:#x}"), wit);
+                                    }
+                                }
+                                sfmt.outcome("ok");
+                            }
+                            Caught::Ret(Err(e)) => ctx.fail("format_variant:well_formed_rejected", || format!("VOL lrtup {vol_lrtup} v{maj}.{min}, RAD lrtup {rad_lrtup}: {e:?}"), wit),
+                            Caught::Panic(p) => ctx.fail(&format!("decode:panic:{}", panic_class(&p)), || p.clone(), wit),
+                        }
+                    }
+                }
+            }
+        }
+    }
+    sfmt.count("format_variant_cases", sfmt.evaluations);
+    let stats = stats.merge(sfmt);
     // short-read environment for the type-31 decoder
     let mut ssr = Stats::new();
     {
@@ -310,7 +350,7 @@ pub fn run(ctx: &'static Ctx) -> (&'static str, Value, Vec<&'static str>) {
 }
 
 pub fn replay(ctx: &'static Ctx, case: &Value) {
-    if case["op"].as_str() == Some("two_actor") {
+    if matches!(case["op"].as_str(), Some("two_actor") | Some("format_variant")) {
         let _ = run(ctx);
         return;
     }
